@@ -178,11 +178,16 @@ class Server(object):
             else:
                 credentials = None
                 sock2 = sock
+            # an authenticator may hand back another socket object (a TLS wrapper takes over the
+            # descriptor and leaves the accepted object detached): that one is what close() must shut down
+            self.clients.add(sock2)
             try:
                 self._serve_client(sock2, credentials)
             except Exception:
                 self.logger.exception("client connection terminated abruptly")
                 raise
+            finally:
+                self.clients.discard(sock2)
         finally:
             try:
                 sock.shutdown(socket.SHUT_RDWR)
